@@ -320,6 +320,63 @@ func TestC01Stress(t *testing.T) {
 
 // ---------------------------------------------------------------- C01: whole runs
 
+// fileBurstInterrupted: a config-file run whose first tick asks for hundreds of thousands of
+// iterations of one busy worker; the run is interrupted as soon as the first of them is reported
+// dropped, i.e. while the stage is still reporting. Every request is in the final result: started
+// or dropped, and the exported metric says the same.
+func fileBurstInterrupted(o *kit.Out, r *kit.Rand, dir string, idx int) {
+	burst := r.Range(300000, 700000)
+	yaml := fmt.Sprintf("scenario: verifscenario\ndefault:\n  mode: constant\n  rate: 1/s\n  jitter: 0\n  distribution: none\n  concurrency: 1\n"+
+		"limits:\n  max-duration: 20s\n  concurrency: 1\n  max-iterations: 0\n  ignore-dropped: true\nstages:\n"+
+		"  - duration: 10s\n    mode: constant\n    rate: %d/100ms\n  - duration: 5s\n    mode: users\n    concurrency: 1\n", burst)
+	path := filepath.Join(dir, "c01burst_"+strconv.Itoa(idx)+".yaml")
+	_ = os.WriteFile(path, []byte(yaml), 0o600)
+	m := runkit.NewMetrics(nil, true)
+	ctx, cancelRun := context.WithCancel(context.Background())
+	defer cancelRun()
+	release := make(chan struct{})
+	var started atomic.Int64
+	go func() {
+		// interrupt as soon as the exported metric shows a dropped iteration
+		for ctx.Err() == nil {
+			if it, _, _ := runkit.SampleCounts(m); it["dropped"] > 0 {
+				cancelRun()
+				close(release)
+				return
+			}
+			time.Sleep(200 * time.Microsecond)
+		}
+	}()
+	out, hung, dump := runkit.DoTimeout(runkit.Config{Mode: "file", FileArg: path, Ctx: ctx, Metrics: m,
+		Scenario: func(*f1testing.T) f1testing.RunFn {
+			return func(*f1testing.T) {
+				started.Add(1)
+				select {
+				case <-release:
+				case <-time.After(15 * time.Second):
+				}
+			}
+		}}, 90*time.Second)
+	if hung {
+		o.Fail("c01-run-hung", "interrupted file run did not return: "+dump[:min(len(dump), 2000)])
+		return
+	}
+	if out.Err != nil || out.Result == nil {
+		o.Fail("c01-run-error", "interrupted file run failed")
+		return
+	}
+	time.Sleep(300 * time.Millisecond) // whatever is still being reported after the run returned shows in the metric
+	sn := out.Result.Snapshot()
+	iter, _, _ := runkit.SampleCounts(m)
+	o.Count("ending", "file run interrupted while a burst is being reported dropped")
+	if sn.DroppedIterationCount != iter["dropped"] {
+		o.Fail("counts-differ", fmt.Sprintf("config-file run (first tick %d requests, one busy worker) interrupted while requests were being reported dropped: the final result has %d dropped iterations, the exported metric %d",
+			burst, sn.DroppedIterationCount, iter["dropped"]))
+	}
+	o.Case("c01_ok", []string{kit.I(started.Load()), "0", kit.I(iter["dropped"]), kit.I(sn.SuccessfulIterationDurations.Count), kit.I(sn.FailedIterationDurations.Count), kit.I(sn.DroppedIterationCount),
+		"T", kit.I(iter["success"]), kit.I(iter["fail"]), kit.I(iter["dropped"])}, "T", "run", "file-burst", "nt")
+}
+
 func TestC01Runs(t *testing.T) {
 	o := kit.Get()
 	defer o.Close()
@@ -328,6 +385,10 @@ func TestC01Runs(t *testing.T) {
 	// like the process-wide instance of a real f1 binary, one metrics instance serves
 	// consecutive runs of the same scenario (Run.Do resets it at the start of every run)
 	shared := runkit.NewMetrics(nil, true)
+	burstDir := t.TempDir()
+	for k := 0; k < kit.N(2, 8); k++ {
+		fileBurstInterrupted(o, r, burstDir, k)
+	}
 	for i := 0; i < rounds; i++ {
 		if i%2 == 0 {
 			wholeRun(o, r, i, shared)
